@@ -3,6 +3,9 @@
 import json, os, sys
 sys.path.insert(0, os.path.dirname(os.path.abspath(__file__)))
 from props import PROPS
+# only properties whose check the maintainer has seen pass are claimed (one id per line)
+CLAIMED = [l.strip() for l in open(os.path.join(os.path.dirname(os.path.abspath(__file__)), "propcfg", "CLAIMED")) if l.strip()]
+PROPS = {k: v for k, v in PROPS.items() if k in CLAIMED}
 ALL = [f"C{i:02d}" for i in range(1, 21)]
 NOT_YET = "check not built yet in this round (designed in DESIGN.md section 7; the technique applies)"
 checks = []
